@@ -113,3 +113,39 @@ Section Generated.
   Proof. repeat split; reflexivity. Qed.
 End Generated.
 
+
+(* ---- constructor wiring ---------------------------------------------------------------------- *)
+From PM.theories Require Import CorrFrontends.
+
+Definition wiring_ok_b : bool :=
+  forallb (fun sf : string * frontend =>
+    match assoc_s (fst sf) server_wiring with
+    | Some roles => forallb (fun role => match assoc_s role roles with
+                                         | Some s => user_configurable s
+                                         | None => false
+                                         end) (required_roles (snd sf))
+    | None => false
+    end) servers.
+
+Lemma wiring_ok : wiring_ok_b = true.
+Proof. vm_compute. reflexivity. Qed.
+
+Lemma configured_spec : forall s, user_configurable s = true ->
+  forall A (x d : A), configured s (Some x) d = x /\ configured s None d = d.
+Proof. intros s H A x d. destruct s; cbn in *; try discriminate; split; reflexivity. Qed.
+
+Lemma server_wiring_spec : forall srv fe, In (srv, fe) servers ->
+  exists roles, assoc_s srv server_wiring = Some roles /\
+    forall role, In role (required_roles fe) ->
+      exists s, assoc_s role roles = Some s /\
+        forall A (x d : A), configured s (Some x) d = x /\ configured s None d = d.
+Proof.
+  intros srv fe Hin.
+  pose proof wiring_ok as H. unfold wiring_ok_b in H. rewrite forallb_forall in H.
+  specialize (H (srv, fe) Hin). cbn [fst snd] in H.
+  destruct (assoc_s srv server_wiring) as [roles|]; [|discriminate].
+  exists roles. split; [reflexivity|]. intros role Hr.
+  rewrite forallb_forall in H. specialize (H role Hr).
+  destruct (assoc_s role roles) as [s|]; [|discriminate].
+  exists s. split; [reflexivity|]. apply configured_spec. exact H.
+Qed.
